@@ -41,7 +41,7 @@ ASSUMPTIONS = [
     'subqueries scan the same table as the outer query (so the check is independent of DESIGN 7 D2)',
     'statements outside the model language (FROM OPEN/CLOSE/CLEAR, ORDER BY/DISTINCT/LIMIT, PIVOT BY, HAVING, BALANCES, '
     'JOURNAL, FROM-subqueries, #entries/#accounts) are run under driven schedules and compared with their serial '
-    'results only (10 fixed scenario pairs + 2 generated families x 2 topologies); the statement-model theorems do '
+    'results only (10 fixed scenario pairs + 3 generated families x 2 topologies); the statement-model theorems do '
     'not speak about them',
     'generated families (impl-only, oracle = serial execution; the serial results on one shared connection must also '
     'equal those on separate connections): same-text = 2-3 threads execute the IDENTICAL statement given as a str '
@@ -49,7 +49,11 @@ ASSUMPTIONS = [
     'group, in the scan phase, in plain/subquery/pivot statements; from-subquery-namespace = statements over '
     'FROM-subqueries whose column names collide (other positions / other types) with yield points at compile time '
     '(vyield of a constant is folded after the FROM clause is compiled and before later columns are bound); '
-    'quick runs 10 schedules per case and topology, not all interleavings',
+    'quick runs 10 schedules per case and topology, not all interleavings; '
+    'placeholder-offset-collision = 2-3 DIFFERENT plain-text statements with 1-3 placeholders and own parameter values '
+    'per thread, padded so that a placeholder sits at the same character offset in two texts as another ordinal, with a '
+    'compile-time yield point before the first placeholder (controls: named parameters, positional against named, the '
+    'identical text as text / as one parsed object); ALL interleavings in every tier when there are <= 252 of them',
     'the keyed-cell model (kcomp: column namespace of a FROM-subquery, aggregator nodes of a compiled statement) is '
     'tied to the code only through the inventory (shared = the inventory lists a cell the statement model does not '
     'interpret); its shared=true branch describes designs that the unchanged tree does not have and is validated '
@@ -941,17 +945,17 @@ IMPL_ONLY = [
 ]
 
 
-def _text_job(conn, text, raw=False):
+def _text_job(conn, text, raw=False, params=None):
     """raw: the statement is handed to Cursor.execute as a str (parsed inside execute, in the thread; this is the
     path on which anything keyed by the statement TEXT would act), else as a freshly copied parsed statement."""
-    return _job_of(conn, text if raw else _parsed_copy(text))
+    return _job_of(conn, text if raw else _parsed_copy(text), params)
 
 
-def _job_of(conn, stmt):
+def _job_of(conn, stmt, params=None):
     def job():
         try:
             cur = conn.cursor()
-            cur.execute(stmt)
+            cur.execute(stmt, params)
             return ([f'{c.name}:{getattr(c.datatype, "__name__", c.datatype)}' for c in cur.description],
                     [[f'{type(v).__name__}:{v}' for v in row] for row in cur.fetchall()])
         except HarnessError:
@@ -966,14 +970,18 @@ def _impl_only_unit(args):
     led = args[3] if len(args) > 3 else L_IO
     raw = args[4] if len(args) > 4 else False     # False: a fresh parsed copy per thread; True: the text;
     #                                                 'shared': ONE parsed statement object per distinct text
+    # query parameters, one container (sequence / mapping / None) per thread
+    params = (args[5] if len(args) > 5 else None) or [None] * len(texts)
 
     def jobs():
         # always freshly loaded ledgers: the serial reference must not share data with the scheduled runs
         shared = connection(led, fresh=True)
         if raw == 'shared':
             objs = {t: _parsed_copy(t) for t in texts}
-            return [_job_of(shared if topo == 'shared-connection' else connection(led, fresh=True), objs[t]) for t in texts]
-        return [_text_job(shared if topo == 'shared-connection' else connection(led, fresh=True), t, bool(raw)) for t in texts]
+            return [_job_of(shared if topo == 'shared-connection' else connection(led, fresh=True), objs[t], p)
+                    for t, p in zip(texts, params)]
+        return [_text_job(shared if topo == 'shared-connection' else connection(led, fresh=True), t, bool(raw), p)
+                for t, p in zip(texts, params)]
     ser = [j() for j in jobs()]
     segs = []
     for i, j in enumerate(jobs()):
@@ -1121,8 +1129,253 @@ def gen_fromsub(rng, i):
              'threads': n})
 
 
-def family_scenarios(rng, n_same, n_fs):
-    return [gen_same_text(rng, i) for i in range(n_same)] + [gen_fromsub(rng, i) for i in range(n_fs)]
+#   placeholder-offset-collision ("... parameters", "on one shared connection or on separate connections"): 2-3
+#                DIFFERENT plain-text statements with 1-3 placeholders each, built so that a placeholder sits at
+#                the SAME character offset in the texts of two threads but is another ordinal there (texts padded
+#                with spaces / a longer alias), every thread with its own parameter values, and a compile-time yield
+#                point (vyield of a constant: first target, or first conjunct of WHERE) BEFORE the first placeholder
+#                is compiled - sometimes a second one between two placeholders.  Anything that identifies a placeholder
+#                by something that is not private to the execution (its position in the text, its ordinal, its name,
+#                the node of a shared parsed statement) binds another parameter under some interleaving.  Controls:
+#                the same texts with named parameters, positional against named, and the identical text in all
+#                threads (as text and as ONE parsed object) with different parameters.
+PH_COLS = ['day', 'year', 'number', 'account', 'narration', 'day AS d', 'year AS y', 'date']
+# (template, kinds of the parameters)   kinds: day/num/year -> int, acct -> str (regular expression)
+PH_TARGETS = [('{} AS p', ['any']), ('day + {} AS e', ['day']), ('{} AS q', ['acct']), ('year - {} AS z', ['year']),
+              ('{} + {} AS r', ['any', 'any'])]
+# conjuncts: (template, kinds, the same condition in Python over a posting r = {year, day, number, account}); the
+# Python reading only steers the choice of parameter values (rows selected: some, not all), the oracle is the serial run
+PH_CONJ = [('day >= {}', ['day'], lambda r, a: r['day'] >= a), ('day <= {}', ['day'], lambda r, a: r['day'] <= a),
+           ('number > {}', ['num'], lambda r, a: r['number'] > a), ('number < {}', ['num'], lambda r, a: r['number'] < a),
+           ('number BETWEEN {} AND {}', ['num', 'num'], lambda r, a, b: a <= r['number'] <= b),
+           ('year = {}', ['year'], lambda r, a: r['year'] == a), ('year >= {}', ['year'], lambda r, a: r['year'] >= a),
+           ('account ~ {}', ['acct'], lambda r, a: __import__('re').search(a, r['account']) is not None),
+           ('day * {} > {}', ['mul', 'prod'], lambda r, a, b: r['day'] * a > b),
+           ('day - {} >= {}', ['day', 'day'], lambda r, a, b: r['day'] - a >= b),
+           ('day BETWEEN {} AND {}', ['day', 'day'], lambda r, a, b: a <= r['day'] <= b),
+           ('year - {} < {}', ['year', 'day'], lambda r, a, b: r['year'] - a < b)]
+PH_NAMES = ['a', 'b', 'c', 'lo', 'hi', 'v', 'w', 'k']
+PH_MARK = '\x00'
+
+
+def _ph_re():
+    import re
+    return re.compile(r'%(?:\((\w+)\))?s')
+
+
+def ph_offsets(text):
+    """character offsets of the placeholders of a statement text, in textual order"""
+    return [m.start() for m in _ph_re().finditer(text)]
+
+
+def ph_collisions(texts):
+    """[(thread s, thread t, offset, ordinal in s, ordinal in t)]: a placeholder at the same offset in the texts of
+    two threads, with another ordinal"""
+    offs = [ph_offsets(x) for x in texts]
+    return [(s, t, o, offs[s].index(o), offs[t].index(o))
+            for s in range(len(texts)) for t in range(s + 1, len(texts)) for o in offs[s]
+            if o in offs[t] and offs[s].index(o) != offs[t].index(o)]
+
+
+def _ph_value(rng, kind, t):
+    # values that tell the threads and the positions apart (no two equal within a statement where it can be helped)
+    if kind == 'day':
+        return rng.choice([1, 2, 3, 4, 5, 6, 7, 8])
+    if kind == 'num':
+        return rng.choice([-6, -4, -2, 0, 1, 2, 3, 4, 6, 8])
+    if kind == 'year':
+        return rng.choice([2019, 2020, 2021])
+    if kind == 'acct':
+        return rng.choice(['Assets', 'Income', 'A$', 'B$', 'C$', ':A', 's:B'])
+    if kind == 'mul':
+        return rng.choice([2, 3, 4, 5])
+    if kind == 'prod':
+        return rng.choice([5, 7, 9, 10, 13, 17, 22])
+    return rng.choice([11, 12, 13, 14, 15, 16, 17, 18, 19]) + 10 * t
+
+
+def ph_statement(rng, t, nph, second_yield):
+    """one statement with nph placeholder marks and a compile-time yield before the first of them -> (text with
+    PH_MARK for the placeholders, parameter kinds in textual order, where the first yield point is, number of
+    placeholders among the targets, the WHERE conjuncts with placeholders in textual order)"""
+    where_yield = rng.random() < 0.4
+    slots_t, slots_w, left = [], [], nph
+    while left:
+        in_target = not where_yield and rng.random() < 0.4
+        slot = rng.choice([x for x in (PH_TARGETS if in_target else PH_CONJ)
+                           if len(x[1]) <= left and x not in slots_t + slots_w])
+        (slots_t if in_target else slots_w).append(slot)
+        kinds = slot[1]
+        left -= len(kinds)
+    cols = rng.sample(PH_COLS[:6] if rng.random() < 0.8 else PH_COLS, rng.randint(1, 3))
+    # targets: the yield first, then columns and placeholder targets in any order
+    rest = cols + [tpl for tpl, _ in slots_t]
+    rng.shuffle(rest)
+    kinds = []
+    for x in rest:
+        kinds += next((k for tpl, k in slots_t if tpl == x), [])
+    targets = ([] if where_yield else [f'vyield({t + 1}) AS g']) + rest
+    extra_t = second_yield and not where_yield and slots_t and rng.random() < 0.5
+    if extra_t:
+        targets.append(f'vyield({10 + t}) AS h')
+    ntarget = len(kinds)
+    conj = [x[0] for x in slots_w]
+    for x in slots_w:
+        kinds += x[1]
+    if second_yield and not extra_t and len(conj) >= 1 and (where_yield or nph >= 2):
+        conj.insert(rng.randint(1, len(conj)), f'vyield({20 + t}) = {20 + t}')
+    if where_yield:
+        conj.insert(0, 'vyield(0) = 0')
+    text = 'SELECT ' + ', '.join(targets) + ' FROM #postings'
+    if conj:
+        text += ' WHERE ' + ' AND '.join(conj)
+    if rng.random() < 0.3:
+        text += ' ORDER BY 1'
+    return text.replace('{}', PH_MARK), kinds, 'where-conjunct' if where_yield else 'first-target', ntarget, slots_w
+
+
+def _ph_postings(led):
+    return [{'year': y, 'day': d, 'number': a, 'account': ACCOUNTS[j % 3]} for y, d, amounts in led for j, a in enumerate(amounts)]
+
+
+def _ph_selected(rows, slots_w, vals):
+    """indexes of the postings the WHERE conjuncts with placeholders select (plain Python reading of the templates)"""
+    out = []
+    for j, r in enumerate(rows):
+        k, ok = 0, True
+        for _, kinds, fn in slots_w:
+            ok = ok and fn(r, *vals[k:k + len(kinds)])
+            k += len(kinds)
+        if ok:
+            out.append(j)
+    return out
+
+
+def ph_fill(text, names):
+    """names: per placeholder '' (-> %s) or a name (-> %(name)s)"""
+    parts = text.split(PH_MARK)
+    out = parts[0]
+    for nm, p in zip(names, parts[1:]):
+        out += ('%s' if nm == '' else f'%({nm})s') + p
+    return out
+
+
+def ph_align(rng, texts, ords, how):
+    """Pad the texts so that placeholder number ords[t] of texts[t] sits at the same character offset in all of them
+    (how: 'spaces' = blanks inserted at a blank before it, 'alias' = a longer alias of the yield target when there is
+    one before it)."""
+    offs = [ph_offsets(x)[o] for x, o in zip(texts, ords)]
+    goal = max(offs)
+    out = []
+    for x, off in zip(texts, offs):
+        d = goal - off
+        if d and how == 'alias' and ' AS g' in x[:off]:
+            x = x.replace(' AS g', ' AS g' + 'g' * d, 1)
+        elif d:
+            blanks = [j for j in range(off) if x[j] == ' ']
+            j = rng.choice(blanks[-3:] if rng.random() < 0.5 else blanks)
+            x = x[:j] + ' ' * d + x[j:]
+        out.append(x)
+    return out
+
+
+def gen_phcollide(rng, i):
+    """-> (name, texts, ledger, raw, info); info['params'] = one parameter container per thread"""
+    style = ['positional', 'positional', 'positional', 'control/named', 'positional', 'control/same-text',
+             'positional', 'mixed-positional-named'][i % 8]
+    n = 3 if i % 4 == 2 else 2
+    second_yield = n == 2 and rng.random() < 0.35
+    if style == 'control/same-text':
+        nphs = [rng.randint(1, 3)] * n
+    elif n == 2:
+        nphs = list(rng.choice([(2, 1), (1, 2), (2, 2), (2, 2), (2, 3), (3, 2), (3, 3), (1, 3), (3, 1)]))
+    else:
+        nphs = list(rng.choice([(1, 2, 3), (3, 2, 1), (2, 3, 1), (2, 2, 3), (3, 3, 3), (2, 3, 2), (3, 1, 2)]))
+    marked, kinds, where, ntarget, conjs = [], [], [], [], []
+    for t in range(n):
+        if style == 'control/same-text' and t:
+            for lst in (marked, kinds, where, ntarget, conjs):
+                lst.append(lst[0])
+            continue
+        for _ in range(50):
+            m, k, w, nt, cj = ph_statement(rng, t, nphs[t], second_yield)
+            if m not in marked:
+                break
+        marked.append(m), kinds.append(k), where.append(w), ntarget.append(nt), conjs.append(cj)
+    rows = _ph_postings(L_IO)
+    # placeholder spellings and parameter containers: every thread has its own values
+    names, params, seen_vals, seen_picked = [], [], [], []
+    for t in range(n):
+        named = style == 'control/named' or (style == 'mixed-positional-named' and t % 2 == 1)
+        if style == 'control/same-text' and t:
+            nm = names[0]
+        else:
+            nm = rng.sample(PH_NAMES, nphs[t]) if named else [''] * nphs[t]
+        for _ in range(200):
+            vals = [_ph_value(rng, k, t) for k in kinds[t]]
+            # distinct within the statement, other values than the other threads, and the WHERE conjuncts select
+            # some postings but not all: a parameter bound to the wrong placeholder then shows in the rows
+            # (identical texts: every thread selects other rows / shows other values than the others)
+            picked = (_ph_selected(rows, conjs[t], vals[ntarget[t]:]), vals[:ntarget[t]])
+            if len(set(map(repr, vals))) == len(vals) and vals not in seen_vals and \
+                    (not conjs[t] or 0 < len(picked[0]) < len(rows)) and \
+                    (style != 'control/same-text' or picked not in seen_picked):
+                break
+        seen_vals.append(vals)
+        seen_picked.append(picked)
+        names.append(nm)
+        params.append(dict(zip(nm, vals)) if nm and nm[0] else list(vals))
+    texts = [ph_fill(m, nm) for m, nm in zip(marked, names)]
+    how = 'none'
+    ords = None
+    if style != 'control/same-text':
+        # the ordinals to bring to one offset: pairwise different where the statements have enough placeholders
+        cands = [o for o in itertools.product(*[range(k) for k in nphs]) if len(set(o)) == n] or \
+            [o for o in itertools.product(*[range(k) for k in nphs]) if len(set(o)) > 1]
+        ords = list(rng.choice(cands))
+        how = 'alias' if i % 3 == 1 else 'spaces'
+        texts = ph_align(rng, texts, ords, how)
+    if style == 'control/same-text':
+        raw = 'shared' if i % 16 < 8 else True
+    else:
+        raw = i % 2 == 0 and n == 2
+    return (f'placeholder-offset-collision{i}', texts, L_IO, raw,
+            {'family': 'placeholder-offset-collision',
+             'shape': style + ('/one-parsed-object' if raw == 'shared' else '/text' if raw else '/parsed-copy-per-thread'),
+             'threads': n, 'params': params, 'all_interleavings': True, 'aligned_ordinals': ords, 'alignment': how,
+             'yield_before_first_placeholder': where, 'second_compile_time_yield': bool(second_yield)})
+
+
+def _ph_coverage(acc, texts, params, info):
+    """evidence about one placeholder-offset-collision scenario (the collisions are computed from the TEXT and
+    confirmed against the positions the parser reports for the Placeholder nodes)"""
+    acc['scenarios'] += 1
+    col = ph_collisions(texts)
+    for x in texts:
+        acc['placeholders_per_statement'][len(ph_offsets(x))] += 1
+    for p in params:
+        acc['parameter_style_hist']['named' if isinstance(p, dict) else 'positional'] += 1
+    acc['colliding_offsets_with_different_ordinals_per_scenario'][len(col)] += 1
+    for _, _, _, a, b in col:
+        acc['colliding_ordinal_pairs'][f'{a}-{b}'] += 1
+    acc['alignment_hist'][info['alignment']] += 1
+    for w, x in zip(info['yield_before_first_placeholder'], texts):
+        acc['compile_time_yield_hist'][w + ('+second-between-or-after-placeholders' if x.count('vyield(') > 1 else '')] += 1
+    try:
+        pos = [sorted(nd.parseinfo.pos for nd in _parsed_copy(x).walk() if isinstance(nd, bq_parser.ast.Placeholder))
+               for x in texts]
+        ok = pos == [ph_offsets(x) for x in texts]
+    except Exception:  # noqa: BLE001
+        ok = False
+    acc['collisions_confirmed_by_parseinfo_pos' if ok else 'collisions_not_confirmed_by_parseinfo_pos'] += len(col)
+    if len(acc['samples']) < 8:
+        acc['samples'].append({'texts': texts, 'parameters': params, 'placeholder_offsets': [ph_offsets(x) for x in texts],
+                               'shape': info['shape']})
+
+
+def family_scenarios(rng, n_same, n_fs, n_ph=0):
+    return [gen_same_text(rng, i) for i in range(n_same)] + [gen_fromsub(rng, i) for i in range(n_fs)] + \
+        [gen_phcollide(rng, i) for i in range(n_ph)]
 
 
 def _n_interleavings(segs):
@@ -1133,8 +1386,8 @@ def _n_interleavings(segs):
     return n
 
 
-def _differs(texts, topo, sched, led, raw):
-    ser, res = _impl_only_unit((texts, topo, [sched], led, raw))
+def _differs(texts, topo, sched, led, raw, params=None):
+    ser, res = _impl_only_unit((texts, topo, [sched], led, raw, params))
     return res[0] != ser
 
 
@@ -1147,14 +1400,23 @@ def check_impl_only(rng, cap, families=(), targeted=False):
     units, meta = [], []
     fam = {'scenarios': collections.Counter(), 'runs': collections.Counter(), 'shape_hist': collections.Counter(),
            'threads_hist': collections.Counter(), 'yield_points_per_thread': collections.Counter(),
-           'raw_text_runs': 0, 'shared_parsed_object_runs': 0, 'exhaustive_cases': 0, 'statements_raising': 0, 'samples': []}
+           'raw_text_runs': 0, 'shared_parsed_object_runs': 0, 'exhaustive_cases': 0, 'statements_raising': 0, 'samples': [],
+           'placeholder_offset_collision': {
+               'scenarios': 0, 'placeholders_per_statement': collections.Counter(), 'parameter_style_hist': collections.Counter(),
+               'colliding_offsets_with_different_ordinals_per_scenario': collections.Counter(),
+               'colliding_ordinal_pairs': collections.Counter(), 'alignment_hist': collections.Counter(),
+               'compile_time_yield_hist': collections.Counter(), 'collisions_confirmed_by_parseinfo_pos': 0,
+               'collisions_not_confirmed_by_parseinfo_pos': 0, 'all_interleavings_cases': 0, 'samples': []}}
     scen = [(n, t, 'meta', False, None) for n, t in IMPL_ONLY_META] + [(n, t, L_IO, False, None) for n, t in IMPL_ONLY]
     scen += list(families)
     sigs = set()
     for name, texts, led, raw, info in scen:
         sers = {}
+        params = info.get('params') if info else None
+        if info and info.get('family') == 'placeholder-offset-collision':
+            _ph_coverage(fam['placeholder_offset_collision'], texts, params, info)
         for topo in ('shared-connection', 'connection-per-thread'):
-            ser, segs = _impl_only_unit((texts, topo, None, led, raw))
+            ser, segs = _impl_only_unit((texts, topo, None, led, raw, params))
             sers[topo] = ser
             nraise = sum(1 for r in ser if r and r[0] == 'exception')
             errs += nraise
@@ -1171,6 +1433,10 @@ def check_impl_only(rng, cap, families=(), targeted=False):
             # exhaustively only up to 252 interleavings (2 threads x 5 steps), else 100 schedules
             if info is None:
                 exhaustive = sum(segs) <= 14 and cap >= 3432
+            elif info.get('all_interleavings'):
+                # few (compile-time) yield points per statement: every interleaving, in every tier
+                exhaustive = _n_interleavings(segs) <= 252
+                fam['placeholder_offset_collision']['all_interleavings_cases'] += 1 if exhaustive else 0
             else:
                 exhaustive = _n_interleavings(segs) <= 252 and (cap >= 3432 or targeted)
             if exhaustive:
@@ -1180,7 +1446,7 @@ def check_impl_only(rng, cap, families=(), targeted=False):
             else:
                 scheds = pick_schedules(rng, segs, (min(cap, 150) if info is None else min(cap, 100)) if not targeted else 40)
             for j in range(0, len(scheds), 8):
-                units.append((texts, topo, scheds[j:j + 8], led, raw))
+                units.append((texts, topo, scheds[j:j + 8], led, raw, params))
                 meta.append((name, topo, texts, scheds[j:j + 8], led, raw, info))
         if sers['shared-connection'] != sers['connection-per-thread'] and len(sigs) < 3:
             sig = f'topology-dependent:{name}: ' + ' || '.join(texts)
@@ -1189,7 +1455,7 @@ def check_impl_only(rng, cap, families=(), targeted=False):
                 'topology-dependent-serial-result',
                 f'{" || ".join(texts)}: executed one after the other on ONE shared connection the statements return '
                 f'{sers["shared-connection"]}, on one fresh connection each {sers["connection-per-thread"]}',
-                {'texts': texts, 'topology': 'both', 'schedule': [], 'ledger': led, 'raw': raw,
+                {'texts': texts, 'topology': 'both', 'schedule': [], 'ledger': led, 'raw': raw, 'params': params,
                  'serial_shared': sers['shared-connection'], 'serial_separate': sers['connection-per-thread']},
                 signature=sig))
     outs = core.pmap(_impl_only_unit, units, chunksize=1)
@@ -1203,21 +1469,27 @@ def check_impl_only(rng, cap, families=(), targeted=False):
                 fam['shared_parsed_object_runs'] += 1 if raw == 'shared' else 0
             if r != ser and name not in seen_names and len(sigs) < 3:
                 seen_names.add(name)
-                small = ddmin(s, lambda s2: _differs(texts, topo, s2, led, raw), max_tests=40) if s else s
-                ser2, res2 = _impl_only_unit((texts, topo, [small], led, raw))
+                params = info.get('params') if info else None
+                small = ddmin(s, lambda s2: _differs(texts, topo, s2, led, raw, params), max_tests=40) if s else s
+                ser2, res2 = _impl_only_unit((texts, topo, [small], led, raw, params))
                 if res2[0] == ser2:      # not reproducible after shrinking: keep the schedule as observed
                     small, ser2, res2 = s, ser, [r]
-                sig = f'schedule-dependent:{name}:{topo}: ' + ' || '.join(texts) + f' schedule={small}'
+                sig = f'schedule-dependent:{name}:{topo}: ' + ' || '.join(texts) + \
+                    (f' parameters={params!r}' if params else '') + f' schedule={small}'
                 sigs.add(sig)
                 viol.append(core.Violation('schedule-dependent-result',
-                                           f'{topo}: {" || ".join(texts)}{" [statements given as text]" if raw is True else " [one parsed statement object per text]" if raw else ""} '
+                                           f'{topo}: {" || ".join(texts)}{" [statements given as text]" if raw is True else " [one parsed statement object per text]" if raw else ""}'
+                                           f'{f" with the parameters {params!r} (one container per thread)" if params else ""} '
                                            f'schedule={small}: threads return {res2[0]} but serial '
                                            f'execution returns {ser2}',
                                            {'texts': texts, 'topology': topo, 'schedule': small, 'serial': ser2,
-                                            'scheduled': res2[0], 'ledger': led, 'raw': raw},
+                                            'scheduled': res2[0], 'ledger': led, 'raw': raw, 'params': params},
                                            signature=sig))
-    fam = {k: (dict(sorted(v.items(), key=lambda kv: str(kv[0]))) if isinstance(v, collections.Counter) else v)
-           for k, v in fam.items()}
+    def plain(v):
+        if isinstance(v, collections.Counter):
+            return dict(sorted(v.items(), key=lambda kv: str(kv[0])))
+        return {k: plain(x) for k, x in v.items()} if isinstance(v, dict) else v
+    fam = {k: plain(v) for k, v in fam.items()}
     return runs, errs, viol, fam
 
 
@@ -1342,12 +1614,12 @@ def run(tier, rng):
         stats3, v = check_cases(head, lambda c, segs: all_interleavings(segs)[0], 'c20c')
         violations += v
     # generated families outside the model language; a shared cell in the inventory triggers the targeted search
-    fams = family_scenarios(rng, 8 if quick else 24, 9 if quick else 27)
+    fams = family_scenarios(rng, 8 if quick else 24, 9 if quick else 27, 16 if quick else 64)
     io_runs, io_errs, v, fam_cov = check_impl_only(rng, 10 if quick else 3432, fams)
     violations += v
     targeted_runs = 0
     if inv['cells'] and not any(x.kind in ('schedule-dependent-result', 'topology-dependent-serial-result') for x in violations):
-        targeted_runs, _, v, _ = check_impl_only(rng, 40, fams + family_scenarios(rng, 8, 9), targeted=True)
+        targeted_runs, _, v, _ = check_impl_only(rng, 40, fams + family_scenarios(rng, 8, 9, 16), targeted=True)
         violations += v
     fr_runs, fr_bad = free_running(rng, 3 if quick else 30)
     ts_runs, ts_bad = text_stress(1, per_thread=8) if quick else text_stress(4, per_thread=25)
@@ -1402,7 +1674,8 @@ def run(tier, rng):
         'distinct_nontrivial': m['interleaved_runs'],
         'rule': 'one evaluation = one (case, schedule) run on real threads driven by the vyield hook, compared with the '
                 'serial results and with the model (results + global yield trace); outside the model language fixed '
-                'scenario pairs and the generated families same-text / from-subquery-namespace (see generated_families) '
+                'scenario pairs and the generated families same-text / from-subquery-namespace / '
+                'placeholder-offset-collision (see generated_families) '
                 'are compared with the serial results; cases = 12 named scenarios x 2 '
                 'topologies + random pairs/triples; schedules = structured (A,B,A ...), random, and all interleavings '
                 '(quick: headline pair; thorough: every pair with <= 6 yield points per thread); non-trivial = the '
@@ -1445,7 +1718,8 @@ def _witness_text(w):
     if w.get('text_stress'):
         return f'free-running threads, text statements: {w["failures"][:1]}'
     if 'texts' in w:
-        return f'{w["topology"]}: {" || ".join(w["texts"])} schedule={w["schedule"]}'
+        return f'{w["topology"]}: {" || ".join(w["texts"])}' + \
+            (f' parameters={w["params"]!r}' if w.get('params') else '') + f' schedule={w["schedule"]}'
     return describe(w['case'], w.get('schedule'))
 
 
@@ -1463,10 +1737,11 @@ def replay(rec):
         led = rec.get('ledger', L_IO)
         led = led if led == 'meta' else [(y, d, list(a)) for y, d, a in led]
         raw = rec.get('raw', False)
+        params = rec.get('params')
         if rec['topology'] == 'both':
-            return _impl_only_unit((rec['texts'], 'shared-connection', None, led, raw))[0] == \
-                _impl_only_unit((rec['texts'], 'connection-per-thread', None, led, raw))[0]
-        ser, res = _impl_only_unit((rec['texts'], rec['topology'], [rec['schedule']], led, raw))
+            return _impl_only_unit((rec['texts'], 'shared-connection', None, led, raw, params))[0] == \
+                _impl_only_unit((rec['texts'], 'connection-per-thread', None, led, raw, params))[0]
+        ser, res = _impl_only_unit((rec['texts'], rec['topology'], [rec['schedule']], led, raw, params))
         return res[0] == ser
     if 'case' not in rec:
         return not gen_inventory()['cells']
